@@ -375,6 +375,11 @@ func V1Revise(kind string) Action {
 
 // V1ProofTxn builds the honest storage proof transaction for a contract.
 func (w *World) V1ProofTxn(id types.FileContractID, fc types.FileContract, windowID types.BlockID) types.Transaction {
+	if fc.Filesize > 1<<24 {
+		// only reached with deliberately corrupted contract elements (membership attacks): the file cannot be
+		// materialised; an empty proof stands in (the block must be rejected for the corrupted element anyway)
+		return types.Transaction{StorageProofs: []types.StorageProof{{ParentID: id}}}
+	}
 	idx := w.CS.StorageProofLeafIndex(fc.Filesize, windowID, id)
 	leaf, proof := spec.FileProof(spec.FileData(int(fc.Filesize), byte(fc.Filesize%251)), int(idx))
 	return types.Transaction{StorageProofs: []types.StorageProof{{ParentID: id, Leaf: leaf, Proof: proof}}}
@@ -830,6 +835,10 @@ func (w *World) V2ProofRes(fce types.V2FileContractElement) (types.V2FileContrac
 		return types.V2FileContractResolution{}, false
 	}
 	ci := w.Store.CI[fc.ProofHeight].Copy()
+	if fc.Filesize > 1<<24 {
+		// corrupted element (membership attacks): see V1ProofTxn
+		return types.V2FileContractResolution{Parent: fce, Resolution: &types.V2StorageProof{ProofIndex: ci}}, true
+	}
 	idx := w.CS.StorageProofLeafIndex(fc.Filesize, ci.ChainIndex.ID, fce.ID)
 	leaf, proof := spec.FileProof(spec.FileData(int(fc.Filesize), byte(fc.Filesize%251)), int(idx))
 	return types.V2FileContractResolution{Parent: fce, Resolution: &types.V2StorageProof{ProofIndex: ci, Leaf: leaf, Proof: proof}}, true
